@@ -19,6 +19,7 @@ PINNED = [
     "excerpt_quotes_lines", "excerpt_total", "excerpt_panics_refuted",
     "trace_shape", "trace_order", "trace_caught",
     "debug_prefix_line",
+    "span_stack_balanced", "op_span_owner", "span_leak_refuted",
 ]
 
 HEADER = "From KV.diag Require Import DiagModel DiagRun.\nOpen Scope N_scope.\n"
@@ -965,8 +966,10 @@ def run(tier, seed):
           "axioms reported by Print Assumptions: " + (", ".join(axioms) if axioms else "none (closed under the global context)"),
           "hand transcription of DebugInfo::{push,get_source_span}, format_source_excerpt, push_frame/pop_frame/"
           "pop_call_stack_on_error, run_debug_instruction into coq/diag/DiagModel.v (tied by the correspondence runs)",
-          "the compiler's span stack and the parser are NOT modelled: their part of C12 is search-only (D-predicates on "
-          "generated programs)",
+          "the compile_* routines and the parser are NOT transcribed: the span-stack theorems are about the abstract "
+          "push_span/pop_span/truncate discipline; its tie to the real compiler is D-predicate M2 (every decoded "
+          "instruction of real chunks carries the span of an AST node of the matching kind, one instruction per node), "
+          "fault lines and parser positions are search-only (D-predicates on generated programs)",
           "kh_diag (Rust harness; overflow checks on) and checks/c12.py (generators, comparison, D-predicates)"]
     return chk.finish(
         rule="programs: committed corpus + every fault kind x depth 0..2 + every call form + every mutation kind + seeded "
